@@ -35,14 +35,7 @@ def nbits_for_uint(x):
     Given the maximum difference, find out the number of bits needed for this number
     and also considering the missing value (all ones).
     """
-    binx = bin(x)[2:]
-    nbits = len(binx)
-    # If this number has all bits of one, the required length is one bit longer
-    # as all 1s is for missing value.
-    if binx.count('1') == len(binx):
-        nbits += 1
-
-    return nbits
+    return len(bin(x)[2:])
 
 
 class Encoder(Coder):
